@@ -15,7 +15,7 @@ CODE = ["yowsup/layers/__init__.py:YowProtocolLayer._sendIq/processIqRegistry/re
         "sendIq/recvIq of every protocol layer", "yowsup/layers/axolotl/layer_base.py:getKeysFor", "yowsup/layers/axolotl/layer_control.py:flush_keys/on_keys_flushed",
         "yowsup/layers/axolotl/layer_send.py:sendToGroup", "yowsup/structs/protocolentity.py:_generateId"]
 BOUNDS = {"quick": "step: 1 outstanding request per kind (16 kinds), reply id unconstrained string, type in {result,error}, delivered twice; "
-                   "history: 2 outstanding requests x 3 deliveries, kinds from 4 representatives; nonreply: receipt / read receipt / ack / notification with an unconstrained id while an application request and a key upload are outstanding",
+                   "history: 2 outstanding requests x 3 deliveries, kinds from 4 representatives; sync-reply: 6 kinds answered while the send is still in progress; nonreply: receipt / read receipt / ack / notification with an unconstrained id while an application request and a key upload are outstanding",
           "thorough": "history: 3 outstanding requests x 3 deliveries (first kind fixed per case, others from 4 representatives) and 2 x 3 over 6 kinds"}
 OUTSIDE = ["reply types other than result/error (get/set with a matching id are not replies)", "id collisions through counter wrap (the counter is an unbounded int)",
            "more outstanding requests / deliveries than the bound"]
